@@ -483,3 +483,54 @@ func (g *gen) minimalVariants() []*ua.Variant {
 	}
 	return out
 }
+
+// distinctArrays: rank 3 and 4 arrays whose elements are pairwise different and whose trailing dimensions are larger than
+// one, so that any error in the strides of split() (or of the flattening in Encode) moves a value to a wrong position
+func (g *gen) distinctArrays() []*ua.Variant {
+	var out []*ua.Variant
+	shapes := [][]int{{2, 3, 4}, {3, 2, 2}, {2, 1, 2}, {1, 2, 3}, {2, 3, 1}, {2, 2, 2, 2}, {2, 1, 3, 2}, {4, 3}}
+	for _, tid := range []ua.TypeID{ua.TypeIDInt32, ua.TypeIDString, ua.TypeIDDouble, ua.TypeIDByte, ua.TypeIDNodeID} {
+		for _, dims := range shapes {
+			k := 0
+			var build func(d []int) reflect.Value
+			build = func(d []int) reflect.Value {
+				if len(d) == 1 {
+					st := reflect.SliceOf(g.vtypes[tid])
+					if tid == ua.TypeIDByte {
+						st = reflect.TypeOf(ua.ByteArray{})
+					}
+					a := reflect.MakeSlice(st, d[0], d[0])
+					for i := 0; i < d[0]; i++ {
+						k++
+						switch tid {
+						case ua.TypeIDInt32:
+							a.Index(i).SetInt(int64(1000 + k))
+						case ua.TypeIDString:
+							a.Index(i).SetString(string(rune('a'+k%26)) + string(rune('A'+k/26)))
+						case ua.TypeIDDouble:
+							a.Index(i).SetFloat(float64(k) + 0.5)
+						case ua.TypeIDByte:
+							a.Index(i).SetUint(uint64(k))
+						default:
+							a.Index(i).Set(reflect.ValueOf(ua.NewNumericNodeID(uint16(k), uint32(70000+k))))
+						}
+					}
+					return a
+				}
+				first := build(d[1:])
+				a := reflect.MakeSlice(reflect.SliceOf(first.Type()), d[0], d[0])
+				a.Index(0).Set(first)
+				for i := 1; i < d[0]; i++ {
+					a.Index(i).Set(build(d[1:]))
+				}
+				return a
+			}
+			m, err := ua.NewVariant(build(dims).Interface())
+			if err != nil {
+				panic("NewVariant(distinct array): " + err.Error())
+			}
+			out = append(out, m)
+		}
+	}
+	return out
+}
